@@ -313,11 +313,11 @@ class World:
 
 
 def request_bytes(host, port, i):
-    return b'GET /r%d?x=%d HTTP/1.1\r\nHost: %s:%d\r\nAccept: */*\r\n\r\n' % (i, i, host, port)
+    return b'GET /r%d HTTP/1.1\r\nHost: %s:%d\r\n\r\n' % (i, host, port)
 
 def response_bytes(i):
-    body = b'body-%d-' % i + bytes([65 + i % 26]) * (3 + i)
-    return b'HTTP/1.1 200 OK\r\nContent-Length: %d\r\nServer: origin\r\n\r\n' % len(body) + body
+    body = b'b%d' % i + bytes([65 + i % 26]) * i
+    return b'HTTP/1.1 200 OK\r\nContent-Length: %d\r\n\r\n' % len(body) + body
 
 
 # ======================================================================================= running the implementation
@@ -469,9 +469,15 @@ def snapshot(s, r, certdir):
 
 
 # ======================================================================================= Coq terms
+_ABBREV = None     # per-term table of byte strings bound once with `let`
+
 def B(x):
     x = bytes(x)
-    return 'K200' if x == PKT200 else C.coq_bytes(x)
+    if x == PKT200:
+        return 'K200'
+    if _ABBREV is not None and len(x) >= 6:
+        return _ABBREV.setdefault(x, 'b%d' % len(_ABBREV))
+    return C.coq_bytes(x)
 
 def coq_obytes(x):
     return 'None' if x is None else '(Some %s)' % B(x if isinstance(x, bytes) else str(x).encode())
@@ -572,11 +578,19 @@ def cache_files(case):
 
 
 def coq_term(case, out):
-    n_plug = len(case['answers'])
-    head = 'CRun %s %s %s %d %s %s' % (coq_script(case, out), coq_flags(case, bad_gateway_pkt()), B(case['host']), case['port'],
-                                        C.coq_list(C.coq_bool(a) for a in case['answers']), C.coq_list(B(f) for f in cache_files(case)))
-    return '%s %s %s %s %s' % (head, C.coq_list(coq_event(e, n_plug) for e in case['events']),
-                               C.coq_list(coq_effect(t) for t in out['trace']), coq_obs(out['step1']), coq_obs(out['final']))
+    global _ABBREV
+    _ABBREV = {}
+    try:
+        n_plug = len(case['answers'])
+        body = 'CRun %s %s %s %d %s %s %s %s %s %s' % (
+            coq_script(case, out), coq_flags(case, bad_gateway_pkt()), B(case['host']), case['port'],
+            C.coq_list(C.coq_bool(a) for a in case['answers']), C.coq_list(B(f) for f in cache_files(case)),
+            C.coq_list(coq_event(e, n_plug) for e in case['events']),
+            C.coq_list(coq_effect(t) for t in out['trace']), coq_obs(out['step1']), coq_obs(out['final']))
+        lets = ''.join('let %s : bytes := %s in ' % (name, C.coq_bytes(val)) for val, name in _ABBREV.items())
+        return '(%s%s)' % (lets, body)
+    finally:
+        _ABBREV = None
 
 
 def model_expr(case):
